@@ -41,6 +41,32 @@ def finishLim (lim : Nat) (s : St) (l r d lo hi : Nat) (flipOut : Bool) : Option
         some ({ s1 with res := s1.res.push node, existing := s1.existing.insert node s1.res.size,
                         finished := s1.finished.insert (l, r) s1.res.size }, s1.res.size)
 
+/-- `finishLim` with every field of the state used linearly (no hidden copy of `res` / `existing` /
+    `finished` while the state is uniquely referenced). Compiled code uses this version (`@[csimp]` replaces
+    `finishLim` by it — justified by the equation below); all theorems are about `finishLim`. Without it the
+    model is quadratic on results with > 10^5 nodes. -/
+def finishLimFast (lim : Nat) (s : St) (l r d lo hi : Nat) (flipOut : Bool) : Option (St × Nat) :=
+  match s with
+  | ⟨res, existing, finished, ne⟩ =>
+    let ne' : Bool := if lo = 1 ∨ hi = 1 then true else ne
+    if lo = hi then some (⟨res, existing, finished.insert (l, r) lo, ne'⟩, lo)
+    else
+      let node : Node := if flipOut then ⟨d, hi, lo⟩ else ⟨d, lo, hi⟩
+      match existing[node]? with
+      | some i => some (⟨res, existing, finished.insert (l, r) i, ne'⟩, i)
+      | none =>
+        if res.size + 1 > lim then none
+        else
+          let i := res.size
+          some (⟨res.push node, existing.insert node i, finished.insert (l, r) i, ne'⟩, i)
+
+@[csimp] theorem finishLim_eq_fast : @finishLim = @finishLimFast := by
+  funext lim s l r d lo hi flipOut
+  obtain ⟨res, existing, finished, ne⟩ := s
+  unfold finishLim finishLimFast
+  by_cases h1 : lo = 1 ∨ hi = 1 <;> by_cases h2 : lo = hi <;> simp only [h1, h2, if_true, if_false]
+  all_goals (split <;> rename_i h <;> simp only [h, Array.size_push])
+
 def solveLim (op : Op2) (rec : Nat → Nat → St → Option (St × Nat)) (a b : Nat) (s : St) : Option (St × Nat) :=
   match op (asBool a) (asBool b) with
   | some c => some (s, ofBool c)
